@@ -451,6 +451,33 @@ pub fn ctor_seeds() -> Vec<(&'static str, String, Value)> {
         }
         add("Colr", "colr-v0-3base-5layers", c);
     }
+    {
+        // exactly one version-1 field present, with the smallest content the format allows:
+        // the version (and with it every since-version offset) hangs on that one field
+        let minimal: [(&str, Value); 5] = [
+            ("base_glyph_list", json!({"num_base_glyph_paint_records": 0, "base_glyph_paint_records": []})),
+            ("layer_list", json!({"num_layers": 0, "paints": []})),
+            ("clip_list", json!({"format": 1, "num_clips": 0, "clips": []})),
+            ("var_index_map", dsim(0x00, 1)),
+            ("item_variation_store", ivs(1, 1, 1)),
+        ];
+        for with_v0 in [true, false] {
+            for (keep, content) in &minimal {
+                let mut c = colr_full();
+                let m = c.as_object_mut().unwrap();
+                for k in ["base_glyph_list", "layer_list", "clip_list", "var_index_map", "item_variation_store"] {
+                    m.insert(k.into(), if k == *keep { json!({"obj": content.clone()}) } else { json!({"obj": null}) });
+                }
+                if !with_v0 {
+                    m.insert("num_base_glyph_records".into(), json!(0));
+                    m.insert("base_glyph_records".into(), json!({"obj": null}));
+                    m.insert("num_layer_records".into(), json!(0));
+                    m.insert("layer_records".into(), json!({"obj": null}));
+                }
+                add("Colr", &format!("colr-only-{}-minimal{}", keep, if with_v0 { "+v0" } else { "" }), c);
+            }
+        }
+    }
     add("Sbix", "sbix-2strikes-3glyphs", json!({"flags": {"bits": 3}, "strikes": [{"obj": {"ppem": 20, "ppi": 72, "glyph_data_offsets": [20, 20, 20, 20]}}, {"obj": {"ppem": 40, "ppi": 144, "glyph_data_offsets": [20, 20, 20, 20]}}]}));
     add("Strike", "strike-0glyphs", json!({"ppem": 9, "ppi": 72, "glyph_data_offsets": [4]}));
     add("Base", "base-1.1-minmax-all-coord-formats", base_full());
